@@ -281,3 +281,84 @@ func runStopDuringClose() (*cloObs, string) {
 	}
 	return obs, ""
 }
+
+// ---- a client that has stopped reading: the broker's writer is blocked in its Write ----
+// kind 0: another connection takes the client id over (C10: the CONNECT must be answered)
+// kind 1: the broker is stopped (C20: Stop must return)
+// kind 2: the client is silent beyond its keep-alive (C19/C11: the connection must end, the Will be published)
+
+type stallObs struct {
+	OK     bool `json:"ok"`     // CONNACK for the new connection / Stop returned / Will seen
+	Closed bool `json:"closed"` // the stalled connection was closed by the broker
+}
+
+func runStalled(kind int) (*stallObs, string) {
+	obs := &stallObs{}
+	b, err := NewBroker(BrokerOpts{Preempt: true})
+	if err != nil {
+		return obs, err.Error()
+	}
+	defer b.Drop()
+	wc := b.Dial()
+	if _, err := wc.Connect(ConnectOpts{ID: "watcher", Ver: mqttp.ProtocolV311, Clean: true}); err != nil {
+		return obs, "watcher: " + err.Error()
+	}
+	w := wc.Auto(false)
+	_ = w.SendL(mkSubscribe(mqttp.ProtocolV311, 1, []string{"will/#"}, []byte{0}))
+	if !w.WaitFor(5*time.Second, func() bool { return len(w.Others) >= 1 }) {
+		return obs, "watcher: no suback"
+	}
+	will := mqttp.NewPublish(mqttp.ProtocolV311)
+	_ = will.Set("will/st", []byte{1}, 0, false, false)
+	c := b.DialCap(64)
+	ka := 0
+	if kind == 2 {
+		ka = 1
+	}
+	if _, err := c.Connect(ConnectOpts{ID: "st", Ver: mqttp.ProtocolV311, Clean: true, KeepAlive: uint16(ka), Will: will}); err != nil {
+		return obs, "connect: " + err.Error()
+	}
+	_ = c.Send(mkSubscribe(mqttp.ProtocolV311, 9, []string{"t"}, []byte{0}))
+	if pk, err := c.Recv(5 * time.Second); err != nil || pk.Type() != mqttp.SUBACK {
+		return obs, "no suback"
+	}
+	// from here on the client neither reads nor writes; traffic for it fills the pipe and blocks the broker's writer
+	pc := b.Dial()
+	if _, err := pc.Connect(ConnectOpts{ID: "sp", Ver: mqttp.ProtocolV311, Clean: true}); err != nil {
+		return obs, "publisher: " + err.Error()
+	}
+	pa := pc.Auto(false)
+	for i := 0; i < 50; i++ {
+		_ = pa.SendL(mkPublish(mqttp.ProtocolV311, "t", make([]byte, 100), 0, false, 0))
+	}
+	time.Sleep(200 * time.Millisecond)
+	switch kind {
+	case 0:
+		c2 := b.Dial()
+		_, err := c2.Connect(ConnectOpts{ID: "st", Ver: mqttp.ProtocolV311, Clean: true})
+		obs.OK = err == nil
+	case 1:
+		atomic.StoreInt32(&b.mgrDown, 1)
+		done := make(chan struct{})
+		go func() { _ = b.Mgr.Stop(); _ = b.Mgr.Shutdown(); close(done) }()
+		select {
+		case <-done:
+			obs.OK = true
+		case <-time.After(8 * time.Second):
+		}
+	default:
+		obs.OK = w.WaitFor(5*time.Second, func() bool { return len(w.Pubs) >= 1 })
+	}
+	// what the broker had written before it was blocked is still in the pipe: drain it, then the end must follow
+	dl := time.Now().Add(3 * time.Second)
+	for time.Now().Before(dl) {
+		if _, err := c.Recv(500 * time.Millisecond); err != nil {
+			if ne, ok := err.(net.Error); ok && ne.Timeout() {
+				continue
+			}
+			obs.Closed = true
+			break
+		}
+	}
+	return obs, ""
+}
